@@ -5,15 +5,129 @@ package filesystem
 // the watched file got the generated content.
 
 import (
+	"context"
+	"errors"
+	"fmt"
 	"os"
 	"path/filepath"
+	"sync"
 	"testing"
+	"time"
 
 	"github.com/fsnotify/fsnotify"
 	"github.com/rs/zerolog"
 
+	"github.com/dadrus/heimdall/internal/rules/config"
 	"github.com/dadrus/heimdall/internal/x/verifc19"
 )
+
+// countingProcessor counts what the provider's background goroutine hands over.
+type countingProcessor struct {
+	mu sync.Mutex
+	n  int
+}
+
+func (c *countingProcessor) bump() error {
+	c.mu.Lock()
+	c.n++
+	c.mu.Unlock()
+
+	return nil
+}
+
+func (c *countingProcessor) OnCreated(*config.RuleSet) error { return c.bump() }
+func (c *countingProcessor) OnUpdated(*config.RuleSet) error { return c.bump() }
+func (c *countingProcessor) OnDeleted(*config.RuleSet) error { return c.bump() }
+
+func (c *countingProcessor) count() int {
+	c.mu.Lock()
+	defer c.mu.Unlock()
+
+	return c.n
+}
+
+// watcherSurvivesErrors starts a provider with its real fsnotify watcher and watch loop, hands errors to
+// the loop the way fsnotify reports them (the overflow of the event queue, any other error) and looks
+// whether a valid change made afterwards still arrives: an error must not end the background watcher.
+func watcherSurvivesErrors(t *testing.T) []verifc19.Event {
+	t.Helper()
+
+	dir, err := os.MkdirTemp(os.Getenv("VERIF_WORK"), "c19fsw-")
+	if err != nil {
+		t.Fatalf("INFRA: %v", err)
+	}
+	defer os.RemoveAll(dir)
+
+	w, err := fsnotify.NewWatcher()
+	if err != nil {
+		t.Fatalf("INFRA: %v", err)
+	}
+
+	proc := &countingProcessor{}
+	p := &Provider{src: dir, w: w, p: proc, l: zerolog.Nop(), configured: true}
+
+	if err := p.Start(context.Background()); err != nil {
+		t.Fatalf("INFRA: %v", err)
+	}
+	defer p.Stop(context.Background()) //nolint:errcheck
+
+	file := filepath.Join(dir, "rules.yaml")
+	version := 0
+
+	// change writes a new valid version and waits for the watcher to hand it over
+	change := func() bool {
+		version++
+
+		before := proc.count()
+		content := fmt.Sprintf("version: \"1alpha4\"\nname: w\nrules:\n- id: w-%d\n  match:\n    routes:\n    - path: /w/%d\n"+
+			"  execute:\n  - authenticator: anon\n", version, version)
+
+		if err := os.WriteFile(file, []byte(content), 0o600); err != nil {
+			t.Fatalf("INFRA: %v", err)
+		}
+
+		for i := 0; i < 300; i++ {
+			if proc.count() > before {
+				return true
+			}
+
+			time.Sleep(10 * time.Millisecond)
+		}
+
+		return false
+	}
+
+	if !change() {
+		t.Fatalf("INFRA: the watcher does not report changes at all")
+	}
+
+	var out []verifc19.Event
+
+	for _, e := range []struct {
+		name string
+		err  error
+	}{
+		{"queue-overflow", fsnotify.ErrEventOverflow},
+		{"other-error", errors.New("verif: some error of the watcher")}, //nolint:goerr113
+		{"queue-overflow-again", fsnotify.ErrEventOverflow},
+	} {
+		detail := "error taken by the watch loop"
+
+		select {
+		case w.Errors <- e.err:
+		case <-time.After(2 * time.Second):
+			detail = "nobody reads the watcher's errors any more"
+		}
+
+		out = append(out, verifc19.Event{
+			Ev: "feed", ID: "ruleset-fs/watcher/" + e.name, Entry: "ruleset-fs", Class: "watcher-error", Outcome: "rejected",
+			StateKept: true, Alive: change(), Detail: detail,
+			Via: "fsnotify error handed to filesystem.Provider.watchFiles, then a valid change of the watched file",
+		})
+	}
+
+	return out
+}
 
 func TestVerifC19Provider(t *testing.T) {
 	dir, err := os.MkdirTemp(os.Getenv("VERIF_WORK"), "c19fs-")
@@ -36,5 +150,6 @@ func TestVerifC19Provider(t *testing.T) {
 
 			return p.ruleSetsChanged(fsnotify.Event{Name: file, Op: fsnotify.Write})
 		},
+		Extra: func() []verifc19.Event { return watcherSurvivesErrors(t) },
 	})
 }
